@@ -103,13 +103,16 @@ structure DState where
   frOracle : List Addr
   /-- the instant of the latest step (time never runs backwards) -/
   clock : Nat
+  /-- answers that `Socket::recv` has handed to a registered exchange (the entry is gone from the
+  socket's map) and that the worker has not been polled for yet, in arrival order -/
+  ready : List (Pending × Body × Addr)
   deriving Repr
 
 def DState.new (selfId : Bytes) (addr : Addr) (readOnly : Bool) (announcePort : Option Nat) (failAddrs : List Addr)
     (cfg : BConfig) (now : Nat) : DState :=
   { h := HState.new selfId addr.v6 readOnly announcePort failAddrs now, cfg := cfg, addr := addr, phase := .awaitStart,
     attempt := 0, bseq := 0, stale := [], pub := .awaitStart, pubVersion := 0, seenVersion := 0, waiters := [],
-    nextWaiter := 0, queued := [], bootstrappedOnce := false, refreshStarted := false, frOracle := [], clock := now }
+    nextWaiter := 0, queued := [], bootstrappedOnce := false, refreshStarted := false, frOracle := [], clock := now, ready := [] }
 
 def liftH (effs : List HEffect) : List DEv :=
   effs.map fun e => match e with
@@ -236,8 +239,37 @@ def DState.periodicCheck (s : DState) (now : Nat) : DState × List DEv :=
     (r.1, [DEv.bcheck] ++ r.2)
   else ({ s with phase := .bootstrapped (now + Constants.PERIODIC_CHECK_TIMEOUT_ns) }, [.bcheck])
 
-/-- one transition of the bootstrap worker at `now`; `none` when it has to wait -/
-def DState.bStep (s : DState) (now : Nat) : Option (DState × List DEv) :=
+def removePending (l : List Pending) (p : Pending) : List Pending := l.filter (· ≠ p)
+
+/-- the worker's `handle_message` for the answer to the awaited exchange `p` -/
+def DState.workerMessage (s : DState) (p : Pending) (body : Body) (src : Addr) (now : Nat) : DState × List DEv :=
+  let accept (s : DState) (r : Resp) : DState :=
+    { s with h := { s.h with table := s.h.table.addNodes (Node.asGood ⟨r.id, src⟩ now) (s.h.namedBy r) now } }
+  match s.phase with
+  | .initial tid rl nl sl count active responses stopAt =>
+    if active.contains p then
+      let active := removePending active p
+      match body with
+      | .resp r =>
+        let s := accept s r
+        if responses + 1 ≥ stopAt then
+          let f := s.finishInitial (responses + 1) active now
+          (f.1, [DEv.bhandled src] ++ f.2)
+        else ({ s with phase := .initial tid rl nl sl count active (responses + 1) stopAt }, [.bhandled src])
+      | _ => ({ s with phase := .initial tid rl nl sl count active responses stopAt }, [.bignored src])
+    else ({ s with stale := removePending s.stale p }, [])
+  | .buckets k active =>
+    if active.contains p then
+      let s := { s with phase := .buckets k (removePending active p) }
+      match body with
+      | .resp r => (accept s r, [.bhandled src])
+      | _ => (s, [.bignored src])
+    else ({ s with stale := removePending s.stale p }, [])
+  | _ => ({ s with stale := removePending s.stale p }, [])
+
+/-- one transition of the bootstrap worker at `now` when no answer is waiting for it; `none` when it
+has to wait -/
+def DState.bStepMain (s : DState) (now : Nat) : Option (DState × List DEv) :=
   match s.phase with
   | .awaitStart => none
   | .forever => none
@@ -262,6 +294,13 @@ def DState.bStep (s : DState) (now : Nat) : Option (DState × List DEv) :=
     if live.isEmpty then some ({ s with phase := .bucketStart (k + 1) }, [])
     else if live.length < active.length then some ({ s with phase := .buckets k live }, [])
     else none
+
+/-- one transition of the bootstrap worker at `now`: an answer that was routed to one of its
+exchanges is handled first (`receivers.next()`), in arrival order; `none` when it has to wait -/
+def DState.bStep (s : DState) (now : Nat) : Option (DState × List DEv) :=
+  match s.ready with
+  | (p, body, src) :: rest => some (({ s with ready := rest }).workerMessage p body src now)
+  | [] => s.bStepMain now
 
 /-- the worker runs until it has to wait -/
 def DState.bRun : Nat → DState → Nat → DState × List DEv
@@ -385,7 +424,7 @@ def DState.advance (bFirst : Bool) : Nat → DState → Nat → DState × List (
       else (s, [])
 
 /-- the registered exchange a message from `src` with id `tid` completes, if any (after the F5
-repair requests never do) -/
+repair requests never do); an exchange that already got its answer is no longer registered -/
 def DState.findPending (s : DState) (tid : InTid) (src : Addr) : Option Pending :=
   match tid with
   | .sym t =>
@@ -393,44 +432,16 @@ def DState.findPending (s : DState) (tid : InTid) (src : Addr) : Option Pending 
       | .initial _ _ _ _ _ a _ _ => a
       | .buckets _ a => a
       | _ => []
-    (active ++ s.stale).find? (fun p => p.addr = src ∧ p.tid = t)
+    ((active ++ s.stale).filter (fun p => !(s.ready.map (·.1)).contains p)).find? (fun p => p.addr = src ∧ p.tid = t)
   | _ => none
-
-def removePending (l : List Pending) (p : Pending) : List Pending := l.filter (· ≠ p)
-
-/-- the worker's `handle_message` for the answer to the awaited exchange `p` -/
-def DState.workerMessage (s : DState) (p : Pending) (body : Body) (src : Addr) (now : Nat) : DState × List DEv :=
-  let accept (s : DState) (r : Resp) : DState :=
-    { s with h := { s.h with table := s.h.table.addNodes (Node.asGood ⟨r.id, src⟩ now) (s.h.namedBy r) now } }
-  match s.phase with
-  | .initial tid rl nl sl count active responses stopAt =>
-    if active.contains p then
-      let active := removePending active p
-      match body with
-      | .resp r =>
-        let s := accept s r
-        if responses + 1 ≥ stopAt then
-          let f := s.finishInitial (responses + 1) active now
-          (f.1, [DEv.bhandled src] ++ f.2)
-        else ({ s with phase := .initial tid rl nl sl count active (responses + 1) stopAt }, [.bhandled src])
-      | _ => ({ s with phase := .initial tid rl nl sl count active responses stopAt }, [.bignored src])
-    else ({ s with stale := removePending s.stale p }, [])
-  | .buckets k active =>
-    if active.contains p then
-      let s := { s with phase := .buckets k (removePending active p) }
-      match body with
-      | .resp r => (accept s r, [.bhandled src])
-      | _ => (s, [.bignored src])
-    else ({ s with stale := removePending s.stale p }, [])
-  | _ => ({ s with stale := removePending s.stale p }, [])
 
 /-- a decodable datagram arrives (`Socket::recv`, then `handle_incoming`) -/
 def DState.datagram (s : DState) (tid : InTid) (body : Body) (src : Addr) (now : Nat) : DState × List DEv :=
   let isRequest := match body with | .req _ => true | _ => false
   match (if isRequest then none else s.findPending tid src) with
   | some p =>
-    let r := s.workerMessage p body src now
-    (r.1, [DEv.routed src] ++ r.2)
+    -- `Responded::make_ready`: the worker sees the answer when it is polled next
+    ({ s with ready := s.ready ++ [(p, body, src)] }, [DEv.routed src])
   | none =>
     let r := s.h.handleIncoming tid body src now
     ({ s with h := r.1 }, [DEv.msg src] ++ liftH r.2)
@@ -460,34 +471,62 @@ inductive DOp where
   | cmd (c : Cmd)
   | datagram (tid : InTid) (body : Body) (src : Addr)
   | garbage (src : Addr)
+  /-- scheduler choices, for steps whose inputs arrive together with what is due at that instant:
+  the worker's task is polled; the handler takes one due timer entry; the handler looks at the
+  worker's published state -/
+  | worker
+  | timer1
+  | observe
   deriving Repr
 
 def advFuel : Nat := 100000
 
-/-- one step: time passes up to `t` (everything that is due happens, in order), then the input -/
 def DState.input (s : DState) (op : DOp) (t : Nat) : DState × List DEv :=
   match op with
   | .adv => (s, [])
   | .cmd c => s.command c t
   | .datagram tid body src => s.datagram tid body src t
   | .garbage src => (s, [.undecodable src])
+  | .worker => DState.bRun bFuel s t
+  | .timer1 => (s.fireOne t).getD (s, [])
+  | .observe => s.hObserve t
 
-def DState.step (s : DState) (op : DOp) (t : Nat) (bFirst : Bool := false) : DState × List (Nat × DEv) :=
+/-- several inputs that reach the handler's task back to back (it handles every ready branch of
+its `select!` before another task gets to run) -/
+def DState.inputs (s : DState) : List DOp → Nat → DState × List DEv
+  | [], _ => (s, [])
+  | op :: rest, t =>
+    let r := s.input op t
+    let z := DState.inputs r.1 rest t
+    (z.1, r.2 ++ z.2)
+
+/-- one step: time passes up to `t` (everything that is due happens, in order), then the inputs,
+then the worker and the handler's view of it.
+`hold`: the inputs reach the handler together with what is due at `t` itself — time only passes
+up to just before `t`, and `ops` spells out the order in which the handler and the worker got to
+run at `t` (`worker`, `timer1`, `observe` between the real inputs); whatever is then still due at
+`t` happens at the beginning of the next step. -/
+def DState.stepG (s : DState) (ops : List DOp) (t : Nat) (bFirst : Bool) (hold : Bool) : DState × List (Nat × DEv) :=
   let t := max t s.clock
-  let a := DState.advance bFirst advFuel s t
-  let r := ({ a.1 with clock := t }).input op t
+  let a := DState.advance bFirst advFuel s (if hold then t - 1 else t)
+  let r := ({ a.1 with clock := t }).inputs ops t
   let z := r.1.settle t
   (z.1, a.2 ++ stamp t (r.2 ++ z.2))
 
-/-- an input with its oracle annotations -/
+/-- the usual step: one input after everything due at `t` -/
+def DState.step (s : DState) (op : DOp) (t : Nat) (bFirst : Bool := false) : DState × List (Nat × DEv) :=
+  s.stepG [op] t bFirst false
+
+/-- the inputs of a step with their oracle annotations -/
 structure DInput where
-  op : DOp
+  ops : List DOp
   t : Nat
   bFirst : Bool
   fr : List Addr
+  hold : Bool
 
 def DState.stepIn (s : DState) (i : DInput) : DState × List (Nat × DEv) :=
-  ({ s with frOracle := i.fr }).step i.op i.t i.bFirst
+  ({ s with frOracle := i.fr }).stepG i.ops i.t i.bFirst i.hold
 
 /-- a whole run: all events in order -/
 def DState.run (s : DState) : List DInput → DState × List (Nat × DEv)
